@@ -396,6 +396,8 @@ func runC04(c *Ctx) {
 	ruleAssignToken(c, "C04.4")
 	// C04.11 generated loops over done-channels use the element as its type permits
 	ruleRangeChannelDirection(c, "C04.11")
+	// C04.13 what is marked as a used import is what gets printed
+	ruleUsedMarkingMatchesEmission(c, "C04.13")
 
 	// C04.10 user identifiers reach the allocator (shared with C12): otherwise a generated local can shadow a user name
 	{
